@@ -1,5 +1,6 @@
 (* C19 — runs leave inputs untouched, scratch space empty, and do not interfere.
-   Property theorems only: each is closed by `exact <lemma>` (Proofs/FsModelP.v, Proofs/FsProgP.v).
+   Property theorems only: each is closed by `exact <lemma>` (Proofs/FsModelP.v, Proofs/FsProgP.v,
+   Proofs/FsProbeP.v; Proofs/TrackerP.v for the FileTracker part).
    The acceptor `accept : config -> fs -> list op -> result` (Model/FsModel.v) is what the
    harness feeds the strace'd operation traces of the real stages to.  The trace alphabet
    contains the OBSERVATIONS a run makes (`Stat p r`: stat / exists() / is_file() / access /
@@ -9,14 +10,20 @@
    program runs through it; they say something about the real stages only because the real
    traces are accepted (the tie: harness/props/c19.py, tag 1901/1902).  The content ids that
    operations write (`Create p t cid`, `OpenW p cid`) are PART OF THE TRACE / chosen by the
-   program from what it observed: the theorems show that no observation the acceptor permits
-   can differ between the two file systems, so a program has nothing to compute different
-   content FROM; that the real stages compute their output from their inputs only (data flow
+   program from what it observed: the theorems show that no observation OF THE MODEL that the
+   acceptor permits can differ between the two file systems, so a program has nothing to compute
+   different content FROM.  The model's observations are: the content an OpenR reads, the names a
+   ListDir returns, and the KIND (absent / file / directory) a Stat is told.  A real stat() of a
+   declared output that an earlier run left also returns st_size / st_mtime / st_ino of the stale
+   file: the model does not expose them (the mapper does not use them today: its looks at the
+   outputs are exists() / is_file() / open(); the tie compares the outputs across histories), so
+   "nothing observable differs" is a statement about kinds, not about everything a system call
+   returns.  That the real stages compute their output from their inputs only (data flow
    inside the Python process) is not a statement about file operations and is established by
    the tie, which digests the outputs of runs across histories (stale files planted, success
    after success/failure, concurrent pairs) against an undisturbed run. *)
 From Coq Require Import ZArith List Bool.
-From CTM Require Import Base.Sx Model.FsModel Proofs.FsModelP Proofs.FsProgP.
+From CTM Require Import Base.Sx Model.FsModel Proofs.FsModelP Proofs.FsProgP Proofs.FsProbeP.
 Import ListNotations.
 Open Scope Z_scope.
 
@@ -72,13 +79,18 @@ Print Assumptions c19_preexisting_output_never_deleted.
    declared output ends up the same (or, if the run never wrote it, is what it was in each);
    and every other path outside the run's own scratch names — every stale entry — is in each
    file system exactly what it was.  The reason is observe_sim: each observation the acceptor
-   permits (code 12 refuses the others) has the same answer in both.
+   permits (code 12 refuses the others) has the same answer in both -- where a Stat answers
+   with the KIND only (see the head of this file: size and times of a stale output, which a real
+   stat returns too, are not modelled).
 
    The second hypothesis cannot be dropped: whether a declared OUTPUT exists is something the
    acceptor lets a run see (run_mapping does look: the probe above), and a program may
-   branch on it (ex_existence_hypothesis_needed).  What the real stages do with the answer is
-   checked by the tie only: histories `success-after-success` / `log-file-of-earlier-run`
-   run with the outputs present and compare against a run with them absent. *)
+   branch on it (ex_existence_hypothesis_needed).  For the shape run_mapping has -- a probe
+   wrapper around a body that does not use the answer -- the comparison "outputs absent" against
+   "outputs left by an earlier run" is c19_stale_independence_up_to_probes below; beyond that
+   shape, what the real stages do with the answer is checked by the tie: histories
+   `success-after-success` / `log-file-of-earlier-run` run with the outputs present and compare
+   against a run with them absent. *)
 Theorem c19_stale_independence_program : forall c pg fuel f1 f2 g1 t h,
   outside_scratch c = true -> mem (c_query c) (c_outputs c) = false ->
   (forall p, In p (c_inputs c) -> lookup f1 p = lookup f2 p) ->
@@ -94,6 +106,58 @@ Theorem c19_stale_independence_program : forall c pg fuel f1 f2 g1 t h,
        lookup g1 p = lookup f1 p /\ lookup g2 p = lookup f2 p).
 Proof. exact stale_independence_program_thm. Qed.
 Print Assumptions c19_stale_independence_program.
+
+(* c19_stale_independence_program compares two file systems with the same KIND of entry at
+   every declared output, so it cannot compare a FIRST run (outputs absent) with a run AFTER AN
+   EARLIER SUCCESS (outputs present) -- the one situation in which the real run_mapping
+   branches: `if not pth.exists(): open(pth,'w').write('junk'); pth.unlink()`.  This theorem
+   does, for probing programs (Model/FsModel.v): a core that does not see the answer of a Stat
+   on a set O' of declared outputs (it sees `OKind PExists` whatever is there), wrapped by
+   `wrapP O' cid core` so that a Stat the core flags is followed by the probe
+   `Create p true cid; Unlink p` exactly when it answered "absent".
+
+   f2 is the STALE file system: every path of O' is a file (an earlier run left it); f1 the
+   FRESH one: every path of O' is absent.  Otherwise the hypotheses of
+   c19_stale_independence_program: agreement on the inputs (and the writable query), in KIND
+   on the declared paths and their ancestors OUTSIDE O', the run's scratch names new in both.
+   If the run on the STALE file system is accepted then the run of the same program on the
+   FRESH one is accepted (within 3 * fuel operations: each Stat may grow into three), and
+     - erase O' t1 = erase O' t2: the traces are equal once the Stat operations on O' (their
+       answers differ) and the adjacent pairs `Create p _ _; Unlink p` on O' (the probes) are
+       removed -- same operations, same order, same content ids written;
+     - the runs make the same names in the scratch root;
+     - every declared output ends up the same (or, never written, is what it was in each);
+     - everything else outside the run's own scratch names is what it was, in each.
+   DIRECTION.  Only stale => fresh holds.  The acceptor's book-keeping is more permissive where
+   an output was absent: the probe makes the path `owned` (a later append-first
+   `Create p false` is allowed; on a file an earlier run left it is code 11, finding F9b), and
+   an output created where nothing was is `new` (it may be unlinked again; one that was there
+   may not, code 13).  ex_probe_direction_append / ex_probe_direction_unlink: accepted fresh,
+   refused stale.
+   WHAT IS NOT SAID.  Nothing about a core that sees the answer (that is
+   ex_existence_hypothesis_needed: it may then write anything), and `Stat` tells only the KIND:
+   a real stat() of a stale output also returns st_size / st_mtime, which the model does not
+   expose (the mapper does not use them today). *)
+Theorem c19_stale_independence_up_to_probes : forall c O' cid core fuel f1 f2 g2 t2 h2,
+  outside_scratch c = true -> mem (c_query c) (c_outputs c) = false ->
+  incl O' (c_outputs c) ->
+  (forall p, In p (c_inputs c) -> lookup f1 p = lookup f2 p) ->
+  (c_obsm c = true -> lookup f1 (c_query c) = lookup f2 (c_query c)) ->
+  (forall p, kregion c p = true -> ~ In p O' -> kind_of (lookup f1 p) = kind_of (lookup f2 p)) ->
+  (forall p, In p O' -> lookup f1 p = None /\ kind_of (lookup f2 p) = PFile) ->
+  paccept c (wrapP O' cid core) fuel f2 g2 t2 h2 ->
+  (forall p, in_cone c (fresh_names c t2) p = true -> lookup f1 p = None /\ lookup f2 p = None) ->
+  exists fuel1 g1 t1 h1,
+    (fuel1 <= 3 * fuel)%nat /\
+    paccept c (wrapP O' cid core) fuel1 f1 g1 t1 h1 /\
+    erase O' t1 = erase O' t2 /\
+    fresh_names c t1 = fresh_names c t2 /\
+    (forall o, In o (c_outputs c) ->
+       lookup g1 o = lookup g2 o \/ (lookup g1 o = lookup f1 o /\ lookup g2 o = lookup f2 o)) /\
+    (forall p, in_cone c (fresh_names c t2) p = false -> ~ In p (c_outputs c) -> wq c p = false ->
+       lookup g1 p = lookup f1 p /\ lookup g2 p = lookup f2 p).
+Proof. exact stale_independence_up_to_probes_thm. Qed.
+Print Assumptions c19_stale_independence_up_to_probes.
 
 (* The trace of an accepted program run is an accepted trace: c19_acceptor_sound,
    c19_preexisting_output_never_deleted and c19_concurrent_noninterference apply to it. *)
@@ -250,6 +314,159 @@ Proof.
   apply path_eqb_eq in E. congruence.
 Qed.
 
+(* ---- probing programs: c19_stale_independence_up_to_probes ---- *)
+(* (i) run_mapping as a probing program.  The core: is tmp/ a directory?, cell_type_mapper_5,
+   a FLAGGED look at the log path [2;2], then the body -- in which the unflagged
+   `Stat [2;1] _` looks at the other output.  The core never sees what is at an output. *)
+Definition body_core (body : list op) : pcore := fun eh =>
+  match eh with
+  | [] => (Stat [3] PExists, false)
+  | [_] => (Mkdir [3;5], false)
+  | [_; _] => (Stat [2;2] PExists, true)
+  | _ :: _ :: _ :: r => (nth (length r) body (Return false), false)
+  end.
+Definition ex_core : pcore := body_core ex_body.
+
+(* wrapped, it is ex_prog: the same run where the log is absent (ex_fs: the trace is ex_trace,
+   with the probe) and where an earlier run left it (ex_fs_log: no probe; refused with code
+   11 when it appends to that log first -- finding F9b) *)
+Example ex_core_is_ex_prog :
+  (exists g h, paccept ex_cfg (wrapP [[2;2]] 100 ex_core) 40 ex_fs g ex_trace h) /\
+  prun ex_cfg (wrapP [[2;2]] 100 ex_core) 40 ex_fs bk0 [] = prun ex_cfg ex_prog 40 ex_fs bk0 [] /\
+  prun ex_cfg (wrapP [[2;2]] 100 ex_core) 40 ex_fs_log bk0 [] = Err 11 /\
+  prun ex_cfg ex_prog 40 ex_fs_log bk0 [] = Err 11 /\
+  (forall n, (n <= 25)%nat ->
+     prun ex_cfg (wrapP [[2;2]] 100 ex_core) n ex_fs_log bk0 [] = prun ex_cfg ex_prog n ex_fs_log bk0 []).
+Proof.
+  split; [do 2 eexists; eexists; vm_compute; split; reflexivity|].
+  split; [vm_compute; reflexivity|]. split; [vm_compute; reflexivity|]. split; [vm_compute; reflexivity|].
+  intros n Hn. do 26 (destruct n as [|n]; [vm_compute; reflexivity|]).
+  exfalso. repeat (apply le_S_n in Hn). inversion Hn.
+Qed.
+
+(* (ii) first run versus run after an earlier success.  Because the REAL body appends to the
+   log first (`Create [2;2] false 103`), its run where an earlier run left the log is refused
+   (ex_core_is_ex_prog: code 11, finding F9b) and the theorem's hypothesis "accepted on the
+   stale file system" fails for it.  The scenario therefore uses the body whose first write of
+   the log TRUNCATES (what the suggested fix of F9b does); everything else is the real shape.
+   O' = both outputs; fresh: neither exists; stale: an earlier run left both. *)
+Definition ex_body_t : list op :=
+  firstn 22 ex_body ++ [Create [2;2] true 103; Create [2;1] true 104; Return true].
+Definition ex_core_t : pcore := body_core ex_body_t.
+Definition ex_O : list path := [[2;1]; [2;2]].
+Definition ex_fresh_fs : fs := remove [2;1] ex_fs.
+Definition ex_stale_fs : fs := ([2;2], (KFile, 15)) :: ex_fs.
+Definition ex_trace_stale : list op :=
+  [ Stat [3] PDir; Mkdir [3;5]; Stat [2;2] PFile ] ++ ex_body_t.
+Definition ex_trace_fresh : list op :=
+  [ Stat [3] PDir; Mkdir [3;5]; Stat [2;2] PAbsent; Create [2;2] true 100; Unlink [2;2] ]
+  ++ firstn 21 ex_body ++ [Stat [2;1] PAbsent; Create [2;2] true 103; Create [2;1] true 104; Return true].
+
+(* all hypotheses of c19_stale_independence_up_to_probes hold ... *)
+Example ex_probe_hypotheses :
+  outside_scratch ex_cfg = true /\ mem (c_query ex_cfg) (c_outputs ex_cfg) = false /\
+  incl ex_O (c_outputs ex_cfg) /\
+  (forall p, In p (c_inputs ex_cfg) -> lookup ex_fresh_fs p = lookup ex_stale_fs p) /\
+  (forall p, kregion ex_cfg p = true -> ~ In p ex_O ->
+             kind_of (lookup ex_fresh_fs p) = kind_of (lookup ex_stale_fs p)) /\
+  (forall p, In p ex_O -> lookup ex_fresh_fs p = None /\ kind_of (lookup ex_stale_fs p) = PFile) /\
+  (exists g2 h2, paccept ex_cfg (wrapP ex_O 100 ex_core_t) 28 ex_stale_fs g2 ex_trace_stale h2) /\
+  (forall p, in_cone ex_cfg (fresh_names ex_cfg ex_trace_stale) p = true ->
+             lookup ex_fresh_fs p = None /\ lookup ex_stale_fs p = None).
+Proof.
+  split; [vm_compute; reflexivity|]. split; [vm_compute; reflexivity|].
+  split; [intros p Hp; exact Hp|].
+  split; [intros p [<-|[<-|[<-|[]]]]; reflexivity|].
+  split; [apply kagree_except_b_spec; vm_compute; reflexivity|].
+  split; [intros p [<-|[<-|[]]]; split; reflexivity|].
+  split; [do 2 eexists; eexists; vm_compute; split; reflexivity|].
+  intros p Hp; split; (eapply cone_free_b_spec; [|exact Hp]); vm_compute; reflexivity.
+Qed.
+
+(* ... so the theorem applies (here with the hypotheses in exactly its form) ... *)
+Example ex_probe_theorem_applies : exists fuel1 g1 t1 h1,
+  (fuel1 <= 84)%nat /\ paccept ex_cfg (wrapP ex_O 100 ex_core_t) fuel1 ex_fresh_fs g1 t1 h1 /\
+  erase ex_O t1 = erase ex_O ex_trace_stale.
+Proof.
+  destruct ex_probe_hypotheses as [H1 [H2 [H3 [H4 [H5 [H6 [[g2 [h2 H7]] H8]]]]]]].
+  destruct (c19_stale_independence_up_to_probes ex_cfg ex_O 100 ex_core_t 28 ex_fresh_fs ex_stale_fs g2
+              ex_trace_stale h2 H1 H2 H3 H4 (fun A => False_ind _ (Bool.diff_false_true A)) H5 H6 H7 H8)
+    as [fuel1 [g1 [t1 [h1 [L [P [E _]]]]]]].
+  exists fuel1, g1, t1, h1. split; [exact L|]. split; [exact P | exact E].
+Qed.
+
+(* ... and this is what it concludes: both runs are accepted; the fresh run probes the log path
+   and is told "absent" twice, the stale run is told "file" twice and does not probe: the raw
+   traces differ (30 and 28 operations), the erased traces are equal; both end with the same
+   outputs -- indeed the same file system: the stale output [2;1] was overwritten, the stale
+   scratch entries are untouched *)
+Example ex_probe_conclusion : exists g1 h1 g2 h2,
+  paccept ex_cfg (wrapP ex_O 100 ex_core_t) 30 ex_fresh_fs g1 ex_trace_fresh h1 /\
+  paccept ex_cfg (wrapP ex_O 100 ex_core_t) 28 ex_stale_fs g2 ex_trace_stale h2 /\
+  ex_trace_fresh <> ex_trace_stale /\
+  (length ex_trace_fresh = 30 /\ length ex_trace_stale = 28)%nat /\
+  erase ex_O ex_trace_fresh = erase ex_O ex_trace_stale /\
+  erase ex_O ex_trace_stale = [Stat [3] PDir; Mkdir [3;5]] ++ firstn 21 ex_body
+                              ++ [Create [2;2] true 103; Create [2;1] true 104; Return true] /\
+  fresh_names ex_cfg ex_trace_fresh = fresh_names ex_cfg ex_trace_stale /\
+  lookup g1 [2;1] = Some (KFile, 104) /\ lookup g2 [2;1] = Some (KFile, 104) /\
+  lookup g1 [2;2] = Some (KFile, 103) /\ lookup g2 [2;2] = Some (KFile, 103) /\
+  g1 = g2 /\ lookup g1 [3;9;1] = Some (KFile, 7) /\
+  nth 2 h1 ONone = OKind PAbsent /\ nth 2 h2 ONone = OKind PFile.
+Proof.
+  do 4 eexists.
+  split; [eexists; vm_compute; split; reflexivity|].
+  split; [eexists; vm_compute; split; reflexivity|].
+  split; [vm_compute; discriminate|].
+  vm_compute. repeat split; reflexivity.
+Qed.
+
+(* (iii) the direction matters.  A core that, after the flagged look at the log path, APPENDS
+   to it first: where the log was absent the probe has made the path the run's own and the
+   append is accepted; where an earlier run left the log it is refused (code 11) *)
+Definition ex_core_append : pcore := fun eh =>
+  match eh with
+  | [] => (Stat [2;2] PExists, true)
+  | [_] => (Create [2;2] false 103, false)
+  | _ => (Return true, false)
+  end.
+Example ex_probe_direction_append :
+  (exists g h, paccept ex_cfg (wrapP [[2;2]] 100 ex_core_append) 10 ex_fs g
+     [Stat [2;2] PAbsent; Create [2;2] true 100; Unlink [2;2]; Create [2;2] false 103; Return true] h) /\
+  prun ex_cfg (wrapP [[2;2]] 100 ex_core_append) 10 ex_fs_log bk0 [] = Err 11 /\
+  (forall p, In p [[2;2]] -> lookup ex_fs p = None /\ kind_of (lookup ex_fs_log p) = PFile) /\
+  (forall p, p <> [2;2] -> lookup ex_fs p = lookup ex_fs_log p).
+Proof.
+  split; [do 2 eexists; eexists; vm_compute; split; reflexivity|].
+  split; [vm_compute; reflexivity|].
+  split; [intros p [<-|[]]; split; reflexivity|].
+  intros p Hp. unfold ex_fs_log. cbn [lookup]. destruct (path_eqb [2;2] p) eqn:E; [|reflexivity].
+  apply path_eqb_eq in E. congruence.
+Qed.
+
+(* ... and a core that writes the result and removes it again: allowed where the result was
+   absent (the run made it: `new`), refused where an earlier run left one (code 13: an output
+   that was there is overwritten, never removed) *)
+Definition ex_core_unlink : pcore := fun eh =>
+  match eh with
+  | [] => (Create [2;1] true 104, false)
+  | [_] => (Unlink [2;1], false)
+  | _ => (Return true, false)
+  end.
+Example ex_probe_direction_unlink :
+  (exists g h, paccept ex_cfg (wrapP [[2;1]] 100 ex_core_unlink) 10 ex_fresh_fs g
+     [Create [2;1] true 104; Unlink [2;1]; Return true] h) /\
+  prun ex_cfg (wrapP [[2;1]] 100 ex_core_unlink) 10 ex_fs bk0 [] = Err 13 /\
+  (forall p, In p [[2;1]] -> lookup ex_fresh_fs p = None /\ kind_of (lookup ex_fs p) = PFile) /\
+  (forall p, p <> [2;1] -> lookup ex_fresh_fs p = lookup ex_fs p).
+Proof.
+  split; [do 2 eexists; eexists; vm_compute; split; reflexivity|].
+  split; [vm_compute; reflexivity|].
+  split; [intros p [<-|[]]; split; reflexivity|].
+  intros p Hp. unfold ex_fresh_fs. rewrite lookup_remove. destruct (path_eqb [2;1] p) eqn:E; [|reflexivity].
+  apply path_eqb_eq in E. congruence.
+Qed.
+
 (* the shape of a FAILED run_mapping (a worker died): the result buffer (6), the buffer of the
    assignment stage inside it (6/2) and the assignment file a surviving worker wrote there
    are removed in the `finally` block, then the tmp directory; log and JSON are written *)
@@ -335,26 +552,43 @@ Proof. vm_compute. repeat split; try reflexivity; eexists; repeat split; reflexi
    n0 and the names in the AddFile steps are what tempfile drew (inputs of the steps).
    Hypotheses: f0 is well formed (what exists lies in a directory), the tmp_dir is a
    directory, the drawn name is new.
-   `writes_ok` is the protocol of the callers (run_mapping): the environment writes only
-   to locations real_location has returned so far.  It is a HYPOTHESIS on the environment,
-   not something the tracker enforces.
+
+   THE ENVIRONMENT.  Earlier versions assumed `writes_ok` ("the environment writes only to
+   locations real_location has returned") and called it the protocol of run_mapping.  The real
+   _run_mapping does not keep to it (audit 3, defect 5): while its tracker lives it writes the
+   query-marker cache — mkstemp_clean(dir=tmp_dir, prefix='query_marker_'), a SIBLING of the
+   tracker's own directory in the scratch directory —, the result-buffer files and the CSV, none
+   of which was handed out (ex_real_life: writes_ok = false on the life of the real caller).
+   The theorems below assume NOTHING about where the environment writes: `written mid` (W) is the
+   set of paths it writes, and the conclusions are relative to it —
+     an input is untouched if the environment does not write THAT path,
+     what is new after del lies in  requested ∪ W,
+     every path the environment wrote holds its last write.
+   In this model the environment can only write files (it cannot remove anything or make a
+   directory: Model/Tracker.v `WriteTo`); under that alphabet no discipline of the environment is
+   needed for the tracker's own guarantees.  What remains as hypothesis is collected in the boolean
+   `life_premise` (c19_tracker_premise), which the harness evaluates on the life RECORDED FROM A
+   REAL run_mapping on every run (harness/props/c19_tracker.py, class
+   tracker-premise-false-on-real-run).
    (imported here: Model/Tracker.v reuses the names step / run / Create / del of FsModel)
    ==================================================================================== *)
 From CTM Require Import Model.Tracker Proofs.TrackerP.
 
-(* (1) With a tmp_dir: every file that existed before the tracker was made has its content
-   while the tracker lives and after del — whatever was added, in whatever mode.  In
-   particular add_file(p, input_only=False) of an EXISTING p treats p as an input: it is
-   copied into the temp directory, recorded as pre-existing, NOT scheduled for copy-out;
-   what the pipeline writes to its real_location is discarded by del (ex_tracker_life:
-   content 101 is lost, the old result 21 stays).
+(* (1) With a tmp_dir: every file that existed before the tracker was made and that the
+   environment does not write keeps its content while the tracker lives and after del —
+   whatever was added, in whatever mode, wherever else the environment writes.  The tracker
+   itself (the copies of add_file, the copy-out and the clean-up of del) never changes an
+   existing file.  In particular add_file(p, input_only=False) of an EXISTING p treats p as an
+   input: it is copied into the temp directory, recorded as pre-existing, NOT scheduled for
+   copy-out; what the pipeline writes to its real_location is discarded by del
+   (ex_tracker_life: content 101 is lost, the old result 21 stays).
    Without a tmp_dir the tracker never touches the file system: a path changes only if the
    environment writes to it; real_location(p) is p itself — the environment writing to the
    real_location of an input writes the input (c19_tracker_inputs_untouched_no_tmp_refuted). *)
 Theorem c19_tracker_inputs_untouched :
   (forall f0 d n0 mid p c,
      wf f0 -> look f0 d = Dir -> look f0 (d ++ [n0]) = Absent -> forallb mid_op mid = true ->
-     writes_ok (start f0) [] (Create (Some d) n0 :: mid) = true ->
+     forallb (fun o => negb (writes_to p o)) mid = true ->
      look f0 p = File c ->
      look (s_fs (alive f0 (Some d) n0 mid)) p = File c /\
      look (s_fs (life f0 (Some d) n0 mid)) p = File c) /\
@@ -368,44 +602,54 @@ Theorem c19_tracker_inputs_untouched :
 Proof. exact tracker_inputs_untouched. Qed.
 Print Assumptions c19_tracker_inputs_untouched.
 
-(* (2) After del (which succeeds: output OOk, for EVERY call sequence, also when the
-   environment writes anywhere) the tracker is gone, its temp directory and everything
-   below it is absent; under the protocol nothing else is new anywhere — so in particular
-   nothing under the tmp_dir parent — except paths given to add_file(.., input_only=False). *)
+(* (2) After del (which succeeds: output OOk, for EVERY call sequence, wherever the environment
+   writes) the tracker is gone, its temp directory and everything below it is absent; and
+   whatever is new anywhere — so in particular under the tmp_dir parent — was either given to
+   add_file(.., input_only=False) or written by the environment itself (W). *)
 Theorem c19_tracker_scratch_empty : forall f0 d n0 mid,
   wf f0 -> look f0 d = Dir -> look f0 (d ++ [n0]) = Absent -> forallb mid_op mid = true ->
   s_tr (life f0 (Some d) n0 mid) = None /\
   snd (step (alive f0 (Some d) n0 mid) Del) = OOk /\
   (forall q, is_prefix (d ++ [n0]) q = true -> look (s_fs (life f0 (Some d) n0 mid)) q = Absent) /\
-  (writes_ok (start f0) [] (Create (Some d) n0 :: mid) = true ->
-   forall q, look f0 q = Absent -> look (s_fs (life f0 (Some d) n0 mid)) q <> Absent ->
-             In q (requested mid)).
+  (forall q, look f0 q = Absent -> look (s_fs (life f0 (Some d) n0 mid)) q <> Absent ->
+             In q (requested mid) \/ In q (written mid)).
 Proof. exact tracker_scratch_empty. Qed.
 Print Assumptions c19_tracker_scratch_empty.
 
-(* (3) With a tmp_dir, under the protocol: what is new after del was requested by
-   add_file(.., input_only=False); what del copies out (_to_write_out) was requested and did
-   not exist before; and — when no requested path lies inside the tracker's own directory —
-   each copied-out path holds exactly what its real_location held when del ran, which is
-   the content last written there (c19_tracker_location_holds_last_write).  Without a
-   tmp_dir the writes went to the paths themselves (second half of (1)). *)
+(* (3) With a tmp_dir: what is new after del was requested by add_file(.., input_only=False) or
+   written by the environment; what del copies out (_to_write_out) was requested and did not
+   exist before; — when no requested path lies inside the tracker's own directory — each
+   copied-out path holds exactly what its real_location (a file directly in the tracker's
+   directory) held when del ran, which is the content last written there
+   (c19_tracker_location_holds_last_write); and every other file outside the tracker's directory
+   (the environment's own products: marker cache, buffers, CSV) goes through del unchanged.
+   Without a tmp_dir the writes went to the paths themselves (second half of (1)). *)
 Theorem c19_tracker_outputs_only_where_requested : forall f0 d n0 mid,
   wf f0 -> look f0 d = Dir -> look f0 (d ++ [n0]) = Absent -> forallb mid_op mid = true ->
-  writes_ok (start f0) [] (Create (Some d) n0 :: mid) = true ->
-  (forall q, look f0 q = Absent -> look (s_fs (life f0 (Some d) n0 mid)) q <> Absent -> In q (requested mid)) /\
+  (forall q, look f0 q = Absent -> look (s_fs (life f0 (Some d) n0 mid)) q <> Absent ->
+             In q (requested mid) \/ In q (written mid)) /\
   (forall dst, In dst (outs_of (alive f0 (Some d) n0 mid)) -> In dst (requested mid) /\ look f0 dst = Absent) /\
   ((forall p, In p (requested mid) -> is_prefix (d ++ [n0]) p = false) ->
    forall dst, In dst (outs_of (alive f0 (Some d) n0 mid)) ->
    exists src c, snd (step (alive f0 (Some d) n0 mid) (RealLocation dst)) = OLoc src /\
+                 child_of (d ++ [n0]) src = true /\
                  look (s_fs (alive f0 (Some d) n0 mid)) src = File c /\
-                 look (s_fs (life f0 (Some d) n0 mid)) dst = File c).
+                 look (s_fs (life f0 (Some d) n0 mid)) dst = File c) /\
+  (forall q c, is_prefix (d ++ [n0]) q = false -> ~ In q (outs_of (alive f0 (Some d) n0 mid)) ->
+     look (s_fs (alive f0 (Some d) n0 mid)) q = File c -> look (s_fs (life f0 (Some d) n0 mid)) q = File c).
 Proof. exact tracker_outputs_only_where_requested. Qed.
 Print Assumptions c19_tracker_outputs_only_where_requested.
 
+(* A write of the environment to a location real_location has handed out before (first
+   alternative) — or any write that succeeded, wherever (second alternative: the marker cache,
+   the CSV) — is what the path holds while the tracker lives, until the environment writes that
+   path again: neither add_file nor another write disturbs it.  (A handed-out location can
+   always be written: Proofs/TrackerP.v handed_writable.) *)
 Theorem c19_tracker_location_holds_last_write : forall f0 d n0 m1 l c m2,
   wf f0 -> look f0 d = Dir -> look f0 (d ++ [n0]) = Absent ->
   forallb mid_op (m1 ++ WriteTo l c :: m2) = true ->
-  writes_ok (start f0) [] (Create (Some d) n0 :: m1 ++ WriteTo l c :: m2) = true ->
+  In (OLoc l) (snd (run (start f0) (Create (Some d) n0 :: m1))) \/
+    snd (step (alive f0 (Some d) n0 m1) (WriteTo l c)) = OOk ->
   forallb (fun o => negb (writes_to l o)) m2 = true ->
   look (s_fs (alive f0 (Some d) n0 (m1 ++ WriteTo l c :: m2))) l = File c.
 Proof. exact tracker_location_holds_last_write. Qed.
@@ -426,28 +670,34 @@ Theorem c19_tracker_copy_faithful : forall f0 d n0 mid p l,
 Proof. exact tracker_copy_faithful. Qed.
 Print Assumptions c19_tracker_copy_faithful.
 
-(* (5) Two initial file systems that differ ONLY in what lies in the tmp_dir parent d under
-   other names than the tracker's directory (stale d T q: q below d, not T, not below T),
-   and calls that name no such path: every call returns the same, the final file systems
-   agree outside the stale part, and the stale part of each is exactly as it was (neither
-   read — the outputs do not depend on it — nor changed).  The drawn names are the same in
-   both runs (they are inputs; they are legal in both because T is not stale). *)
+(* (5) STALE = at or below an entry that the tmp_dir parent d had BEFORE the life began, in
+   either file system (`entries f d`: the names present in d; stale_in d E q: q lies at or below
+   d ++ [a], a in E).  What the run itself makes in d during the life — the tracker's directory,
+   but also fresh siblings the environment writes there, like _run_mapping's query-marker cache —
+   is NOT stale (the earlier definition "everything in d beside the tracker's directory" made the
+   premise false for the real caller).
+   Two initial file systems that differ ONLY in the stale part, and calls that name no stale
+   path: every call returns the same, the final file systems agree outside the stale part, and
+   the stale part of each is exactly as it was (neither read — the outputs do not depend on it
+   — nor changed).  The drawn names are the same in both runs (they are inputs; the tracker's
+   name is new in both). *)
 Theorem c19_tracker_independent_of_stale : forall d n0 f0 f0' mid,
-  wf f0 -> wf f0' -> look f0 d = Dir -> look f0 (d ++ [n0]) = Absent -> forallb mid_op mid = true ->
-  (forall q, stale d (d ++ [n0]) q = false -> look f0 q = look f0' q) ->
-  (forall o p, In o mid -> In p (op_paths o) -> stale d (d ++ [n0]) p = false) ->
+  wf f0 -> wf f0' -> look f0 d = Dir -> look f0 (d ++ [n0]) = Absent -> look f0' (d ++ [n0]) = Absent ->
+  forallb mid_op mid = true ->
+  (forall q, stale_in d (entries f0 d ++ entries f0' d) q = false -> look f0 q = look f0' q) ->
+  (forall o p, In o mid -> In p (op_paths o) -> stale_in d (entries f0 d ++ entries f0' d) p = false) ->
   snd (run (start f0) (Create (Some d) n0 :: mid ++ [Del])) =
   snd (run (start f0') (Create (Some d) n0 :: mid ++ [Del])) /\
-  (forall q, stale d (d ++ [n0]) q = false ->
+  (forall q, stale_in d (entries f0 d ++ entries f0' d) q = false ->
      look (s_fs (life f0 (Some d) n0 mid)) q = look (s_fs (life f0' (Some d) n0 mid)) q) /\
-  (forall q, stale d (d ++ [n0]) q = true ->
+  (forall q, stale_in d (entries f0 d ++ entries f0' d) q = true ->
      look (s_fs (life f0 (Some d) n0 mid)) q = look f0 q /\
      look (s_fs (life f0' (Some d) n0 mid)) q = look f0' q).
 Proof. exact tracker_independent_of_stale. Qed.
 Print Assumptions c19_tracker_independent_of_stale.
 
-(* A life leaves a well-formed file system well formed (also without tmp_dir, also when the
-   environment writes anywhere): the theorems above apply again to the next tracker, on what
+(* A life leaves a well-formed file system well formed (also without tmp_dir, wherever the
+   environment writes): the theorems above apply again to the next tracker, on what
    this one left — histories of runs sharing a tmp_dir are covered by iterating them. *)
 Theorem c19_tracker_life_keeps_wf : forall f0 tmp n0 mid,
   wf f0 -> forallb mid_op mid = true ->
@@ -455,6 +705,17 @@ Theorem c19_tracker_life_keeps_wf : forall f0 tmp n0 mid,
   wf (s_fs (life f0 tmp n0 mid)).
 Proof. exact tracker_life_keeps_wf. Qed.
 Print Assumptions c19_tracker_life_keeps_wf.
+
+(* The boolean `life_premise f0 d n0 mid` (Model/Tracker.v) yields every hypothesis used above
+   for a life with a tmp_dir: (1) for every file of f0, (3) third part, (5) with f0' := f0's
+   twin.  The harness evaluates it (tag 1954) on the life recorded from a real run_mapping. *)
+Theorem c19_tracker_premise : forall f0 d n0 mid, life_premise f0 d n0 mid = true ->
+  wf f0 /\ look f0 d = Dir /\ look f0 (d ++ [n0]) = Absent /\ forallb mid_op mid = true /\
+  (forall p c, look f0 p = File c -> forallb (fun o => negb (writes_to p o)) mid = true) /\
+  (forall p, In p (requested mid) -> is_prefix (d ++ [n0]) p = false) /\
+  (forall o p, In o mid -> In p (op_paths o) -> stale_in d (entries f0 d) p = false).
+Proof. exact life_premise_spec. Qed.
+Print Assumptions c19_tracker_premise.
 
 (* ------------------------------------------------------------------ examples (tracker) *)
 (* names: 1 = in/, 2 = out/, 3 = tmp/; [1;1] query (11), [1;2] statistics (12); [2;1] the
@@ -473,8 +734,8 @@ Definition tr_mid : list op :=
 Example ex_tracker_hypotheses :
   wf tr_fs /\ look tr_fs [3] = Dir /\ look tr_fs ([3] ++ [5]) = Absent /\
   forallb mid_op tr_mid = true /\
-  writes_ok (start tr_fs) [] (Create (Some [3]) 5 :: tr_mid) = true /\
-  requested tr_mid = [[2;2]; [2;1]] /\
+  life_premise tr_fs [3] 5 tr_mid = true /\
+  requested tr_mid = [[2;2]; [2;1]] /\ written tr_mid = [[3;5;52]; [3;5;53]] /\
   outs_of (alive tr_fs (Some [3]) 5 tr_mid) = [[2;2]] /\
   (forall p, In p (requested tr_mid) -> is_prefix ([3] ++ [5]) p = false).
 Proof.
@@ -497,8 +758,46 @@ Example ex_tracker_life :
   look g [3;5] = Absent /\ look g [3;5;52] = Absent /\ look g [3;9;1] = File 7.
 Proof. vm_compute. repeat split; reflexivity. Qed.
 
+(* THE LIFE OF THE REAL CALLER (cli/from_specified_markers.py:_run_mapping, obsm_key unset).
+   run_mapping has made its own directory [3;5] (cell_type_mapper_NNN) and the result buffer
+   [3;7] (result_buffer_NNN) in the scratch directory [3] before; [1;3] is the marker lookup.
+     FileTracker(tmp_dir=[3;5])                      -> its directory [3;5;6] (file_tracker_NNN)
+     add_file(query, input_only=True); add_file(statistics, input_only=True)
+     real_location(query); real_location(statistics)
+     the environment writes: the query-marker cache [3;5;60] (mkstemp_clean(dir=tmp_dir): a
+       SIBLING of the tracker's directory), an assignment file in the result buffer [3;7;70]
+       (in reality inside a directory the type-assignment stage makes there: the model's
+       environment has no mkdir), the CSV [2;3]
+     the tracker dies when _run_mapping returns.
+   The strict protocol `writes_ok` is FALSE on this life; every hypothesis of the theorems
+   (life_premise) holds: nothing requested, no input written, nothing stale named — the marker
+   cache is a fresh sibling, not an entry [3;5] had before.  After del the tracker's directory is
+   gone, the inputs are as before, and what is new is exactly W (run_mapping removes [3;5] and
+   [3;7] afterwards: Props above, the acceptor). *)
+Definition real_fs : fs :=
+  [([], (KDir, 0)); ([1], (KDir, 0)); ([2], (KDir, 0)); ([3], (KDir, 0));
+   ([1;1], (KFile, 11)); ([1;2], (KFile, 12)); ([1;3], (KFile, 13)); ([2;1], (KFile, 21));
+   ([3;5], (KDir, 0)); ([3;7], (KDir, 0)); ([3;9], (KDir, 0)); ([3;9;1], (KFile, 7))].
+Definition real_mid : list op :=
+  [ AddFile [1;1] true 51; AddFile [1;2] true 52; RealLocation [1;1]; RealLocation [1;2];
+    WriteTo [3;5;60] 100; WriteTo [3;7;70] 101; WriteTo [2;3] 102 ].
+
+Example ex_real_life :
+  writes_ok (start real_fs) [] (Tracker.Create (Some [3;5]) 6 :: real_mid) = false /\
+  life_premise real_fs [3;5] 6 real_mid = true /\
+  requested real_mid = [] /\ written real_mid = [[3;5;60]; [3;7;70]; [2;3]] /\
+  entries real_fs [3;5] = [] /\
+  snd (run (start real_fs) (Tracker.Create (Some [3;5]) 6 :: real_mid ++ [Del])) =
+    [OOk; OOk; OOk; OLoc [3;5;6;51]; OLoc [3;5;6;52]; OOk; OOk; OOk; OOk] /\
+  let g := s_fs (life real_fs (Some [3;5]) 6 real_mid) in
+  look g [3;5;6] = Absent /\ look g [3;5;6;51] = Absent /\
+  look g [1;1] = File 11 /\ look g [1;2] = File 12 /\ look g [1;3] = File 13 /\ look g [2;1] = File 21 /\
+  look g [3;5;60] = File 100 /\ look g [3;7;70] = File 101 /\ look g [2;3] = File 102 /\
+  look g [3;9;1] = File 7.
+Proof. vm_compute. repeat split; reflexivity. Qed.
+
 (* (1) fails without a tmp_dir when the environment writes to the real_location of an
-   input: the location IS the input *)
+   input: the location IS the input — even under the strict protocol writes_ok *)
 Theorem c19_tracker_inputs_untouched_no_tmp_refuted :
   exists f0 n0 mid p c,
     wf f0 /\ forallb mid_op mid = true /\
@@ -533,19 +832,27 @@ Example ex_tracker_errors :
   snd (step (start tr_fs) (Create (Some [3]) 9)) = OErr 5.
 Proof. vm_compute. repeat split; reflexivity. Qed.
 
-(* (5): the same life on a file system with OTHER stale entries in tmp/ *)
+(* (5): the same life on a file system with OTHER stale entries in tmp/; here the environment
+   also writes a fresh sibling [3;60] of the tracker's directory — not stale *)
 Definition tr_fs' : fs :=
   [([], (KDir, 0)); ([1], (KDir, 0)); ([2], (KDir, 0)); ([3], (KDir, 0));
    ([1;1], (KFile, 11)); ([1;2], (KFile, 12)); ([2;1], (KFile, 21));
    ([3;8], (KFile, 3)); ([3;4], (KDir, 0)); ([3;4;51], (KFile, 4))].
+Definition tr_mid5 : list op := tr_mid ++ [WriteTo [3;60] 102].
 Example ex_tracker_stale_hypotheses :
-  wf tr_fs' /\
-  (forall q, stale [3] ([3] ++ [5]) q = false -> look tr_fs q = look tr_fs' q) /\
-  (forall o p, In o tr_mid -> In p (op_paths o) -> stale [3] ([3] ++ [5]) p = false) /\
-  stale [3] ([3] ++ [5]) [3;9;1] = true /\ look tr_fs [3;9;1] <> look tr_fs' [3;9;1].
+  let E := entries tr_fs [3] ++ entries tr_fs' [3] in
+  E = [9; 8; 4] /\ wf tr_fs' /\ look tr_fs' ([3] ++ [5]) = Absent /\
+  (forall q, stale_in [3] E q = false -> look tr_fs q = look tr_fs' q) /\
+  (forall o p, In o tr_mid5 -> In p (op_paths o) -> stale_in [3] E p = false) /\
+  stale_in [3] E [3;9;1] = true /\ look tr_fs [3;9;1] <> look tr_fs' [3;9;1] /\
+  stale_in [3] E [3;60] = false /\
+  look (s_fs (life tr_fs (Some [3]) 5 tr_mid5)) [3;60] = File 102.
 Proof.
+  split; [vm_compute; reflexivity|].
   split; [apply wfb_wf; vm_compute; reflexivity|].
+  split; [vm_compute; reflexivity|].
   split; [apply agree_b_spec; vm_compute; reflexivity|].
   split; [apply ops_ns_b_spec; vm_compute; reflexivity|].
-  split; [vm_compute; reflexivity | vm_compute; discriminate].
+  split; [vm_compute; reflexivity|]. split; [vm_compute; discriminate|].
+  split; vm_compute; reflexivity.
 Qed.
